@@ -74,12 +74,13 @@ var c02Table = map[string]c02Row{
 }
 
 func checkC02(c *Ctx, r *Report) {
-	r.Explain = "Decides structural necessary conditions of 'no document content outside the reader's channels': (R1) every access gate's verdict is honoured — on the unauthorised edge a function returns only the gate's redacted stub, a zero value or an error, error-valued gates propagate on every path, and the channel set each gate judges is the revision's own channel set (from the revision cache entry, the revision-channel lookup or the revision tree), never the document's current channels; (R2) containment — every call that hands out revision bodies or attachment bytes without a user check sits in a function that is classified (gating / forwards to a gating callee / internal write, import, resync or cache-loader path / operates on an already gated revision) and the classification is verified; a new unclassified caller is a violation (fail-closed who-may-read rule); (R3) all-docs — in enumeration mode a row is produced only on the edge where the document's channels intersect the user's, explicit keys are filtered by the document's channel set, bodies come only from the gated Get1xRevAndChannels and the user's channels come from the inherited-channel computation; (R4) backups of a superseded revision are stamped with the channels the document had before the update; (R5) a long-lived replication connection that reloads its user also re-subscribes to the user's (new) roles. Not decided: correctness of the channel values stored on cache entries (partly C16), existence leaks through timing or error text, heap-mediated flows beyond one function, EE-only files."
+	r.Explain = "Decides structural necessary conditions of 'no document content outside the reader's channels': (R1) every access gate's verdict is honoured — on the unauthorised edge a function returns only the gate's redacted stub, a zero value or an error, error-valued gates propagate on every path, and the channel set each gate judges is the revision's own channel set (from the revision cache entry, the revision-channel lookup or the revision tree), never the document's current channels; (R2) containment — every call that hands out revision bodies or attachment bytes without a user check sits in a function that is classified (gating / forwards to a gating callee / internal write, import, resync or cache-loader path / operates on an already gated revision) and the classification is verified; a new unclassified caller is a violation (fail-closed who-may-read rule); (R3) all-docs — in enumeration mode a row is produced only on the edge where the document's channels intersect the user's, explicit keys are filtered by the document's channel set, bodies come only from the gated Get1xRevAndChannels and the user's channels come from the inherited-channel computation; (R4) backups of a superseded revision are stamped with the channels the document had before the update; (R5) a long-lived replication connection that reloads its user also re-subscribes to the user's (new) roles; (R6) REST handlers that reach an ungated document read are registered with admin privileges only; (R7) every replication message handler runs behind the user refresh unless listed with the reason it makes no channel decision. Not decided: correctness of the channel values stored on cache entries (partly C16), existence leaks through timing or error text, heap-mediated flows beyond one function, EE-only files."
 	c02R1(c, r)
 	c02R2(c, r)
 	c02R3(c, r)
 	c02R4R5(c, r)
 	c02R6(c, r)
+	c02R7(c, r)
 }
 
 func c02R1(c *Ctx, r *Report) {
@@ -982,5 +983,110 @@ func c02R6(c *Ctx, r *Report) {
 			continue
 		}
 		r.Fail("C02-R6", construct, rg.pos, "a handler reachable without admin privileges reads documents through an API that performs no channel check; it must go through GetRev/Get1xRevAndChannels or be registered admin-only")
+	}
+}
+
+// ---- R7: replication (BLIP) message handlers that act for the connection's user run behind the user refresh ----
+
+// handlers registered without the user refresh, each with the reason no channel decision depends on the user object
+var c02BlipNoRefresh = map[string]string{
+	"(*db.blipHandler).handleGetCheckpoint":   "reads the client's own checkpoint document (a local document keyed by the client id; no channel check involved)",
+	"(*db.blipHandler).handleSetCheckpoint":   "writes the client's own checkpoint document",
+	"(*db.blipHandler).handleNoRev":           "carries no document data; only marks a sequence as handled",
+	"(*db.blipHandler).handleProposeChanges":  "answers with revision statuses only; the revisions themselves arrive through rev, which is refreshed",
+	"(*db.blipHandler).handlePing":            "no data",
+}
+
+func c02R7(c *Ctx, r *Report) {
+	r.Rule("C02-R7", "E4 who-may-call (BLIP profile table)", "every replication message handler is registered behind userBlipHandler (which reloads the connection's user when its access changed), unless it is listed with the reason it makes no channel decision", 12)
+	wrapName := "db.userBlipHandler"
+	n := 0
+	for _, fn := range []*ssa.Function{c.SSAPkg["db"].Func("init")} {
+		if fn == nil {
+			r.Fail("C02-R7", "anchor db.init", "-", "package initialiser not found")
+			return
+		}
+		EachInstr(fn, false, func(in ssa.Instruction) {
+			mu, ok := in.(*ssa.MapUpdate)
+			if !ok || namedOf(mu.Value.Type()) != "blipHandlerFunc" {
+				return
+			}
+			// unwrap the registration expression
+			wrapped := false
+			var h *ssa.Function
+			v := mu.Value
+			for depth := 0; depth < 6 && v != nil; depth++ {
+				v = unwrap(v)
+				switch x := v.(type) {
+				case *ssa.Call:
+					if c.CalleeName(x) == wrapName {
+						wrapped = true
+					}
+					if len(x.Call.Args) == 0 {
+						v = nil
+					} else {
+						v = x.Call.Args[0]
+					}
+				case *ssa.Function:
+					h = x
+					v = nil
+				case *ssa.MakeClosure:
+					h, _ = x.Fn.(*ssa.Function)
+					v = nil
+				default:
+					v = nil
+				}
+			}
+			if h == nil {
+				r.Fail("C02-R7", "blip-profile handler unresolved", c.Pos(mu.Pos()), "a replication message handler registration could not be resolved to a function (undecided)")
+				return
+			}
+			n++
+			name := strings.TrimSuffix(c.FuncName(h), "$thunk")
+			construct := "blip-handler=" + name
+			switch {
+			case wrapped:
+				r.Pass("C02-R7", construct+" behind=user-refresh", c.Pos(mu.Pos()), "registered through userBlipHandler")
+			case c02BlipNoRefresh[name] != "":
+				r.Pass("C02-R7", construct+" no-refresh listed", c.Pos(mu.Pos()), c02BlipNoRefresh[name])
+			default:
+				r.Fail("C02-R7", construct+" behind=user-refresh", c.Pos(mu.Pos()), "this replication message handler is registered without userBlipHandler: on a long-lived connection it keeps using the user object loaded when the connection was opened, so a channel or role revoked since then still passes its access checks")
+			}
+		})
+	}
+	// the wrapper refreshes before it delegates
+	if w := c.Func(wrapName); w == nil {
+		r.Fail("C02-R7", "anchor db.userBlipHandler", "-", "function not found")
+	} else {
+		ok := false
+		for _, lit := range w.AnonFuncs {
+			refresh := c.Calls(lit, false, nameIs("(*db.blipHandler).refreshUser"))
+			var next []ssa.Instruction
+			EachInstr(lit, false, func(in ssa.Instruction) {
+				if cl, isCall := in.(*ssa.Call); isCall {
+					cv := cl.Call.Value
+					if ld, isLoad := cv.(*ssa.UnOp); isLoad {
+						cv = ld.X
+					}
+					if _, isFV := cv.(*ssa.FreeVar); isFV {
+						next = append(next, cl)
+					}
+				}
+			})
+			if len(refresh) == 1 && len(next) > 0 {
+				ev := valueOfCall(refresh[0])
+				_, okE := EdgesOnValue(lit, func(v ssa.Value) bool { return unwrapLoadFree(v) == ev })
+				ok = len(okE) > 0
+				for _, nx := range next {
+					if !DominatedBy(lit, nx, NewAvoid().AddEdge(okE...)) {
+						ok = false
+					}
+				}
+			}
+		}
+		r.Check("C02-R7", "fn=db.userBlipHandler delegate only-after=refreshUser-ok", c.Pos(w.Pos()), ok, "the wrapped handler runs only on the success edge of refreshUser", "userBlipHandler no longer refreshes the user before delegating")
+	}
+	if n < 12 {
+		r.Fail("C02-R7", "blip-profile table", "-", fmt.Sprintf("only %d handler registrations resolved", n))
 	}
 }
